@@ -63,4 +63,5 @@ try:
     res['check_violations'] = [l for l in r.stdout.splitlines() if l.startswith('VIOLATION')][:6]
 finally:
     sh(['git', '-C', '/repo', 'checkout', '--', '.'])
+    sh(['git', '-C', '/repo', 'clean', '-fdq'])
 print(json.dumps(res, indent=1))
